@@ -37,7 +37,9 @@ theorem C16_tunnel_res (cfg : Cfg) (c : Conn) (d : Bytes) (hlen : 0 < d.length)
     rcases hg with h | h
     · cases hx : c.out.tx <;> simp_all
     · simp [h]
-  simp [resData, resDataCore, ht, h1, h2, h3, hl, hguard]
+  have hstored : (resStoreChunk (some d) d.length c).out.status = STREAM_TUNNEL := by simp [resStoreChunk, ht]
+  simp [resData, resDataCore, ht, h1, h2, h3, hl, hguard, hstored]
+  simp [resStoreChunk]
 
 /-- **C16 (suspension after CONNECT)**: while the response to the CONNECT transaction has not got past its status line, the
     waiting state consumes nothing, runs no callback and asks for the other direction. -/
